@@ -222,7 +222,7 @@ func judge(run *mon.Run, sc scenario, calls []call) {
 		sort.Slice(rs, func(i, j int) bool { return rs[i] < rs[j] })
 		for i := 1; i < len(rs); i++ {
 			run.Observe("consecutive_windows_compared", 1)
-			if rs[i]-rs[i-1] <= wms {
+			if rs[i]-rs[i-1] < wms {
 				run.Violation("overlapping-windows", vkey, map[string]any{"scenario": sc.String(), "identifier": id, "reset_at_ms": []int64{rs[i-1], rs[i]}, "window_ms": wms})
 			}
 		}
